@@ -354,7 +354,9 @@ func TestVerif_C26_Assemble(t *testing.T) {
 						RedeemerOutputScript: script,
 						RequestedAmount:      uint64(it.Get("value").Int()),
 						TreasuryFee:          uint64(it.Get("aux").Int()),
-						TxMaxFee:             1 << 40,
+						// the per-request fee limit: below, equal to or above the proposed share
+						// (the assembler must apply the proposed shares regardless)
+						TxMaxFee: uint64(in.Get("txMaxFee").Idx(i).Int()),
 					}
 					redeemable += int64(it.Get("value").Int() - it.Get("aux").Int())
 				}
@@ -550,9 +552,15 @@ func TestVerif_C26_Assemble(t *testing.T) {
 					st := in.Get("pend").Get(l)
 					byScript[hex.EncodeToString(env.labels[l])] = l
 					if st.Get("p").Bool() {
+						txMaxFee := uint64(1 << 40)
+						for n, pl := range in.Get("scripts").Strs() {
+							if pl == l {
+								txMaxFee = uint64(in.Get("txMaxFee").Idx(n).Int())
+							}
+						}
 						lc.setPendingRedemptionRequest(env.walletPKH, &RedemptionRequest{
 							Redeemer: chain.Address(fmt.Sprintf("0x%x", c26Hash20("redeemer-"+l))), RedeemerOutputScript: env.labels[l],
-							RequestedAmount: uint64(st.Get("amount").Int()), TreasuryFee: uint64(st.Get("treasury").Int()), TxMaxFee: 1 << 40})
+							RequestedAmount: uint64(st.Get("amount").Int()), TreasuryFee: uint64(st.Get("treasury").Int()), TxMaxFee: txMaxFee})
 					}
 					if in.Get("foreign").Bool() {
 						lc.setPendingRedemptionRequest(otherPKH, &RedemptionRequest{
@@ -674,6 +682,12 @@ func TestVerif_C26_Assemble(t *testing.T) {
 			}
 			// fee shares
 			if kind == "redemption" || kind == "redemptionProposal" {
+				for n, lim := range in.Get("txMaxFee").Ints() {
+					if n < len(shares) && shares[n] > int64(lim) {
+						rep.Count("redemption/share-above-TxMaxFee", 1)
+						break
+					}
+				}
 				var wantShares []int64
 				var sumShares int64
 				for _, s := range exp.Get("shares").Ints() {
